@@ -78,6 +78,15 @@ func init() {
 		"fmt.Println": inFprintf,
 		"fmt.Print":   inFprintf,
 		"strconv.Quote": inOpaqueString,
+		// String() methods of address types are formatting (message texts):
+		// opaque.  MarshalText/AppendTo stay real.
+		"(net.IP).String":              inOpaqueString,
+		"(net.IPMask).String":          inOpaqueString,
+		"(*net.IPNet).String":          inOpaqueString,
+		"(net.HardwareAddr).String":    inOpaqueString,
+		"(net/netip.Addr).String":      inOpaqueString,
+		"(net/netip.Prefix).String":    inOpaqueString,
+		"(net/netip.AddrPort).String":  inOpaqueString,
 		"strconv.AppendQuote": nil,
 
 		// ---- unique ----
